@@ -178,6 +178,8 @@ class _Hist:
         self.failed = False
         self.log = []
         self.histories = 0
+        self.keep_going = False     # enumerated discovery jobs: report every failing label once, do not stop
+        self.muted = set()
 
     @property
     def symbolic(self):
@@ -231,10 +233,15 @@ class _Hist:
         return v
 
     def prove(self, label, cond, detail=None):
+        if label in self.muted:
+            return True
         log = list(self.log)
         ok = self.env.prove(label, cond, detail=lambda: "history=%r\n%s" % (log, detail() if callable(detail) else detail))
         if not ok:
-            self.failed = True
+            if self.keep_going:
+                self.muted.add(label)
+            else:
+                self.failed = True
         return ok
 
     def cover(self, label):
@@ -466,6 +473,7 @@ def _shapes_messaging_enum(tier):
         dict(batch=True, n_ops=4, prio="const", senders=["r_snd"]),                       # 13 400
         dict(batch=True, n_ops=5, prio="two", senders=["s_loc"]),                         # 11 900
         dict(batch=True, n_ops=5, prio="two", senders=["r_snd"], late=["b_late"]),        # 11 900
+        dict(batch=True, n_ops=4, prio="two", senders=["s_loc"], late=["e_late", "b_late"]),   # two late destinations
     ]
     if tier == "thorough":
         s += [
@@ -805,3 +813,522 @@ Contract(
     budget=dict(quick=dict(max_paths=400000, timeout_s=560), thorough=dict(max_paths=4000000, timeout_s=3400)),
     desc="the same on every history of <= 4 operations with the pyDcop message types",
 )
+
+
+# =====================================================================================
+#                                      C20
+# =====================================================================================
+#
+# World: a real Directory (+ DirectoryComputation) on the Discovery of agent ``agt_dir`` and one real
+# Discovery (+ DiscoveryComputation) per agent.  ``message_sender`` of the discovery computations is a router
+# with one FIFO queue per (sender, receiver) pair - what the real transports give (the in-process layer calls
+# synchronously, the http layer posts one message at a time from the sender's thread, and an agent's inbox
+# is FIFO among the messages of one type, C18).  Which queue delivers next is the schedule.
+#
+# Oracle = the statement: once everything is delivered, for every item an agent is still subscribed to, what the
+# agent's Discovery answers is what the Directory answers; and every change of an agent's view of an item was
+# announced to the callbacks registered for that item (and only changes were).
+
+from collections import OrderedDict, deque  # noqa: E402
+
+
+class _Unknown:
+    """the answer 'unknown agent / computation' (UnknownAgent / UnknownComputation raised)"""
+
+    def __init__(self, what):
+        self.what = what
+
+    def __eq__(self, o):
+        return isinstance(o, _Unknown)
+
+    def __hash__(self):
+        return 7
+
+    def __repr__(self):
+        return "<unknown>"
+
+
+_UNK = _Unknown("")
+
+
+def _ask(dis, fn, *a):
+    try:
+        r = fn(*a)
+    except (dis.UnknownAgent, dis.UnknownComputation):
+        return _UNK
+    return set(r) if isinstance(r, (set, frozenset)) else r
+
+
+class _DWorld:
+    def __init__(self, env, dis, agents, late=()):
+        self.env = env
+        self.dis = dis
+        self.chan = OrderedDict()
+        self.order = deque()            # global posting order (for the 'fifo' policy)
+        self.comps = {}
+        self.trace = []                 # what happened, for the failure reports
+        self.raised = None
+        self.ddisc = dis.Discovery("agt_dir", "addr_dir")
+        self.directory = dis.Directory(self.ddisc)
+        self.ddisc.use_directory("agt_dir", "addr_dir")
+        self._wire(self.directory.directory_computation)
+        self._wire(self.ddisc.discovery_computation)
+        self.disc = OrderedDict()
+        self.alive = set()
+        self.left = set()
+        self.agents = list(agents)
+        # ---- model
+        self.host = {}                                  # computation -> hosting agent (ground truth of the history)
+        self.replicas = {}                              # computation -> set of agents that published a replica
+        self.subs = {}                                  # (agent, kind, item) -> dict(active, cbs=[(cbid, oneshot)])
+        self.calls = []                                 # callback invocations of the current step: (agent, cbid, evt, item, val)
+        self.ncb = 0
+        self.flags = {}                                 # (agent, item-kind, item) -> set of region tags
+        for n in agents:
+            d = dis.Discovery(n, "addr_" + n)
+            d.use_directory("agt_dir", "addr_dir")
+            self._wire(d.discovery_computation)
+            self.disc[n] = d
+            if n not in late:
+                self.join(n)
+        self.run("fifo")
+
+    # ---- router
+    def _wire(self, c):
+        self.comps[c.name] = c
+        c.message_sender = lambda src, dst, msg, prio=None, on_error=None: self._post(src, dst, msg)
+
+    def _post(self, src, dst, msg):
+        self.chan.setdefault((src, dst), deque()).append(msg)
+        self.order.append((src, dst))
+        self.trace.append(("sent", src, dst, repr(msg)))
+
+    def enabled(self):
+        return [k for k, q in self.chan.items() if q]
+
+    def pending(self):
+        return sum(len(q) for q in self.chan.values())
+
+    def outbox(self, name):
+        """messages of agent ``name`` to the directory that are not delivered yet"""
+        return list(self.chan.get(("_discovery_" + name, "_directory"), ()))
+
+    def deliver(self, key):
+        msg = self.chan[key].popleft()
+        self.order.remove(key)
+        self.trace.append(("deliver", key[0], key[1], repr(msg)))
+        target = key[1]
+        who = target[len("_discovery_"):] if target.startswith("_discovery_") else None
+        self.step(who, lambda: self.comps[target].on_message(key[0], msg, 0), "deliver %s -> %s: %r" % (key[0], key[1], msg))
+
+    def run(self, policy, chooser=None, max_steps=400):
+        n = 0
+        while n < max_steps and self.raised is None:
+            en = self.enabled()
+            if not en:
+                break
+            if policy == "fifo":
+                key = self.order[0]
+            elif policy == "lifo":
+                key = en[-1]
+            elif policy == "explore":
+                key = chooser("deliver", en) if len(en) > 1 else en[0]
+            else:
+                raise ValueError(policy)
+            self.deliver(key)
+            n += 1
+        return n
+
+    # ---- a step = one operation of an agent, or one delivery: callbacks are checked per step
+    def views(self, who):
+        """the view of agent ``who`` on every item it has callbacks for"""
+        d = self.disc[who]
+        out = {}
+        for (a, kind, item), s in self.subs.items():
+            if a != who or not s["cbs"]:
+                continue
+            if kind == "agent":
+                out[(kind, item)] = _ask(self.dis, d.agent_address, item)
+            elif kind == "computation":
+                out[(kind, item)] = _ask(self.dis, d.computation_agent, item)
+            else:
+                out[(kind, item)] = frozenset(d._replicas_data.get(item, ()))
+        return out
+
+    def step(self, who, action, what):
+        env = self.env
+        before = self.views(who) if who in self.disc else {}
+        registered = {k: list(s["cbs"]) for k, s in self.subs.items() if k[0] == who}
+        self.calls = []
+        r = env.call(action)
+        if isinstance(r, Raised):
+            self.raised = (what, r)
+            return r
+        if who not in self.disc or who in self.left:
+            return r
+        after = self.views(who)
+        for (kind, item), old in before.items():
+            new = after.get((kind, item), old)
+            cbs = registered.get((who, kind, item), [])
+            for cbid, oneshot in cbs:
+                got = [c for c in self.calls if c[1] == cbid]
+                exp = _expected_events(kind, item, old, new)
+                tag = self.region("cb", who, kind, item)
+                det = lambda: dict(step=what, agent=who, item=(kind, item), view_before=old, view_after=new,  # noqa
+                                   callback=(cbid, "one-shot" if oneshot else "persistent"), calls=got, trace=self.trace[-14:])
+                if exp:
+                    env.prove("discovery.callback-fired-for-each-change-of-a-subscribed-%s%s" % (kind, tag),
+                              _matches(got, exp, oneshot), detail=det)
+                else:
+                    env.prove("discovery.callback-not-fired-without-a-change-of-the-%s%s" % (kind, tag), not got, detail=det)
+                if oneshot and got:
+                    s = self.subs[(who, kind, item)]
+                    if (cbid, oneshot) in s["cbs"]:
+                        s["cbs"].remove((cbid, oneshot))
+        return r
+
+    def region(self, what, who, kind, item):
+        tags = sorted(self.flags.get((who, kind, item), ()))
+        return "[%s]" % ",".join(tags) if tags else ""
+
+    def flag(self, who, kind, item, tag):
+        self.flags.setdefault((who, kind, item), set()).add(tag)
+
+    # ---- callbacks handed to the Discovery under contract
+    def make_cb(self, who, kind, item):
+        self.ncb += 1
+        cbid = "cb%d" % self.ncb
+
+        def cb(evt, name, val, _id=cbid):
+            self.calls.append((who, _id, evt, name, val))
+        cb.cbid = cbid
+        return cb
+
+    # ---- operations (each is what an agent's code calls on its own Discovery)
+    def join(self, n):
+        d = self.disc[n]
+        self.alive.add(n)
+        # Agent._on_start
+        self.step(n, lambda: (d.register_computation(d.discovery_computation.name, n, "addr_" + n),
+                              d.register_agent(n, "addr_" + n)), "join %s" % n)
+
+    def leave(self, n):
+        d = self.disc[n]
+        # Agent._on_stop (the agent hosts no computation any more)
+        r = self.step(n, lambda: d.unregister_agent(n), "leave %s" % n)
+        self.alive.discard(n)
+        self.left.add(n)
+        for k, s in self.subs.items():
+            if k[0] == n:
+                s["active"] = False
+        return r
+
+
+def _expected_events(kind, item, old, new):
+    """the callback events a change of view old -> new stands for"""
+    if old == new:
+        return []
+    if kind == "agent":
+        return [("agent_removed", item, None)] if new == _UNK else [("agent_added", item, new)]
+    if kind == "computation":
+        return [("computation_removed", item, "*")] if new == _UNK else [("computation_added", item, new)]
+    ev = [("replica_added", item, a) for a in sorted(new - old)] + [("replica_removed", item, a) for a in sorted(old - new)]
+    return ev
+
+
+def _matches(got, exp, oneshot):
+    """got: recorded calls (agent, cbid, evt, item, val); exp: expected (evt, item, val|'*')"""
+    calls = [c[2:] for c in got]
+    if oneshot:
+        exp_sets = [[e] for e in exp]
+        return len(calls) == 1 and any(_ev_eq(calls[0], e[0]) for e in exp_sets)
+    if len(calls) != len(exp):
+        return False
+    rest = list(exp)
+    for c in calls:
+        hit = next((e for e in rest if _ev_eq(c, e)), None)
+        if hit is None:
+            return False
+        rest.remove(hit)
+    return True
+
+
+def _ev_eq(call, e):
+    return call[0] == e[0] and call[1] == e[1] and (e[2] == "*" or call[2] == e[2])
+
+
+_SUB_MSG = {"agent": ("subscribe_agent", "agent"), "computation": ("subscribe_computation", "computation"),
+            "replica": ("subscribe_replica", "replica")}
+
+
+def _msg_is(m, mtype, **fields):
+    return getattr(m, "type", None) == mtype and all(getattr(m, k, "<missing>") == v for k, v in fields.items())
+
+
+class _DOps:
+    """the operations of a history, their preconditions (taken from the code and its call sites) and the
+    per-operation postconditions"""
+
+    def __init__(self, w, p):
+        self.w = w
+        self.p = p
+
+    # ---------------- which operations are legal now
+    def options(self):
+        w, p = self.w, self.p
+        fam = p["families"]
+        out = []
+        live = [a for a in w.agents if a in w.alive]
+        kinds = p.get("kinds", ["nocb", "cb", "oneshot"])
+        maxcb = p.get("max_cbs", 2)
+        if "computation" in fam:
+            for x in live:
+                for c in p["comps"]:
+                    if x in p.get("hosts", w.agents):
+                        if w.host.get(c) is None:
+                            out.append(("reg_comp", x, c))
+                        elif w.host.get(c) == x:
+                            out.append(("unreg_comp", x, c))
+                    if x in p.get("subscribers", w.agents):
+                        out += self._sub_opts(x, "computation", c, kinds, maxcb)
+        if "replica" in fam:
+            for x in live:
+                for c in p["comps"]:
+                    if x in p.get("replicators", w.agents):
+                        known = _ask(w.dis, w.disc[x].computation_agent, c) != _UNK
+                        if x in w.replicas.get(c, ()):
+                            out.append(("unreg_replica", x, c))
+                        elif known:
+                            out.append(("reg_replica", x, c))
+                    if x in p.get("subscribers", w.agents):
+                        s = w.subs.get((x, "computation", c))
+                        if s and s["active"]:       # every call site subscribes to the computation first
+                            out += self._sub_opts(x, "replica", c, kinds, maxcb)
+        if "agent" in fam:
+            for x in live:
+                if x in p.get("subscribers", w.agents):
+                    for n in p.get("agent_targets", w.agents):
+                        if n != x:
+                            out += self._sub_opts(x, "agent", n, kinds, maxcb)
+            for x in w.agents:
+                if x in p.get("late", ()) and x not in w.alive and x not in w.left:
+                    out.append(("join", x))
+                if x in p.get("leavers", ()) and x in w.alive and x not in w.host.values() \
+                        and not any(x in r for r in w.replicas.values()):
+                    out.append(("leave", x))
+        return out
+
+    def _sub_opts(self, x, kind, item, kinds, maxcb):
+        w = self.w
+        s = w.subs.get((x, kind, item))
+        out = []
+        ncb = len(s["cbs"]) if s else 0
+        for k in kinds:
+            if k == "nocb" or ncb < maxcb:
+                out.append(("sub", x, kind, item, k))
+        if s and s["active"]:
+            out.append(("unsub", x, kind, item, None))
+            for cbid, _ in s["cbs"]:
+                out.append(("unsub", x, kind, item, cbid))
+        return out
+
+    # ---------------- doing one
+    def apply(self, op):
+        w, env = self.w, self.w.env
+        w.trace.append(("op",) + tuple(op))
+        x = op[1]
+        d = w.disc[x]
+        sent0 = len(w.outbox(x))
+        name = op[0]
+        if name == "join":
+            w.join(x)
+        elif name == "leave":
+            w.leave(x)
+        elif name == "reg_comp":
+            c = op[2]
+            w.host[c] = x
+            w.step(x, lambda: d.register_computation(c, x, "addr_" + x), "%s registers %s" % (x, c))
+        elif name == "unreg_comp":
+            c = op[2]
+            w.host[c] = None
+            w.step(x, lambda: d.unregister_computation(c, x), "%s unregisters %s" % (x, c))
+            s = w.subs.get((x, "computation", c))
+            if s:       # documented: the host cancels its own subscription before publishing the removal
+                s["lapsed"] = s.get("lapsed") or s["active"]
+                s["active"] = False
+                s["cbs"] = []
+        elif name == "reg_replica":
+            c = op[2]
+            w.replicas.setdefault(c, set()).add(x)
+            w.step(x, lambda: d.register_replica(c, x), "%s publishes a replica of %s" % (x, c))
+        elif name == "unreg_replica":
+            c = op[2]
+            w.replicas[c].discard(x)
+            w.step(x, lambda: d.unregister_replica(c, x), "%s withdraws its replica of %s" % (x, c))
+        elif name == "sub":
+            _, _, kind, item, cbkind = op
+            s = w.subs.setdefault((x, kind, item), dict(active=False, cbs=[], fns={}))
+            cb = None
+            if cbkind != "nocb":
+                cb = w.make_cb(x, kind, item)
+                s["fns"][cb.cbid] = cb
+            fn = getattr(d, "subscribe_" + kind)
+            if s.get("lapsed") and not s["active"]:
+                w.flag(x, kind, item, "resubscribed-after-an-unsubscription")
+            r = w.step(x, lambda: fn(item, cb, one_shot=(cbkind == "oneshot")), "%s subscribes to %s %s (%s)" % (x, kind, item, cbkind))
+            s["active"] = True
+            if cb is not None:
+                s["cbs"].append((cb.cbid, cbkind == "oneshot"))
+                env.prove("discovery.subscribe.returns-the-callback", isinstance(r, Raised) or r is cb)
+        elif name == "unsub":
+            _, _, kind, item, cbid = op
+            s = w.subs[(x, kind, item)]
+            cb = s["fns"][cbid] if cbid is not None else None
+            fn = getattr(d, "unsubscribe_" + kind)
+            if cbid is None:
+                s["cbs"] = []
+                s["active"] = False
+            else:
+                s["cbs"] = [c for c in s["cbs"] if c[0] != cbid]
+                if not s["cbs"]:
+                    s["active"] = False     # documented: no callback left -> the subscription on the directory is removed
+            s["lapsed"] = s.get("lapsed") or not s["active"]
+            if kind == "replica" and not s["active"]:
+                w.flag(x, "computation", item, "after-unsubscribe_replica")
+                w.flag(x, "replica", item, "after-unsubscribe_replica")
+            w.step(x, lambda: fn(item, cb), "%s unsubscribes from %s %s (%s)" % (x, kind, item, cbid or "all"))
+        else:
+            raise ValueError(op)
+        if w.raised is not None:
+            return
+        new = w.outbox(x)[sent0:]
+        self.check_sent(op, x, new)
+        self.check_local(op, x, d)
+
+    # ---------------- per-operation postconditions
+    def check_sent(self, op, x, new):
+        env = self.w.env
+        name = op[0]
+        det = lambda: dict(operation=op, sent_to_directory=[repr(m) for m in new])  # noqa
+        addr = "addr_" + x
+        if name == "join":
+            ok = len(new) == 2 and _msg_is(new[0], "publish_computation", computation="_discovery_" + x, agent=x) \
+                and _msg_is(new[1], "publish_agent", agents=x, address=addr)
+            env.prove("discovery.start.publishes-the-agent-and-its-discovery-computation", ok, detail=det)
+        elif name == "leave":
+            env.prove("discovery.unregister_agent.sends-the-matching-message-to-the-directory",
+                      len(new) == 1 and _msg_is(new[0], "unpublish_agent", agent=x), detail=det)
+        elif name == "reg_comp":
+            env.prove("discovery.register_computation.sends-the-matching-message-to-the-directory",
+                      len(new) == 1 and _msg_is(new[0], "publish_computation", computation=op[2], agent=x, address=addr), detail=det)
+        elif name == "unreg_comp":
+            ok = len(new) >= 1 and _msg_is(new[-1], "unpublish_computation", computation=op[2], agent=x) \
+                and all(_msg_is(m, "subscribe_computation", computation=op[2], subscribe=False) for m in new[:-1])
+            env.prove("discovery.unregister_computation.sends-the-matching-message-to-the-directory", ok, detail=det)
+        elif name in ("reg_replica", "unreg_replica"):
+            env.prove("discovery.%s.sends-the-matching-message-to-the-directory" % ("register_replica" if name == "reg_replica" else "unregister_replica"),
+                      len(new) == 1 and _msg_is(new[0], "publish_replica", replica=op[2], agent=x, publish=(name == "reg_replica")), detail=det)
+        elif name in ("sub", "unsub"):
+            kind, item = op[2], op[3]
+            mtype, field = _SUB_MSG[kind]
+            ok = len(new) <= 1 and all(_msg_is(m, mtype, subscribe=(name == "sub"), **{field: item}) for m in new)
+            env.prove("discovery.%ssubscribe_%s.only-sends-a-message-of-the-matching-kind-to-the-directory" % ("" if name == "sub" else "un", kind),
+                      ok, detail=det)
+
+    def check_local(self, op, x, d):
+        w, env = self.w, self.w.env
+        name = op[0]
+        dis = w.dis
+        if name == "reg_comp":
+            env.prove("discovery.register_computation.local-view-updated", _ask(dis, d.computation_agent, op[2]) == x)
+        elif name == "unreg_comp":
+            env.prove("discovery.unregister_computation.local-view-updated", _ask(dis, d.computation_agent, op[2]) == _UNK)
+        elif name == "reg_replica":
+            r = _ask(dis, d.replica_agents, op[2])
+            env.prove("discovery.register_replica.local-view-updated", r != _UNK and x in r, detail=lambda: r)
+        elif name == "unreg_replica":
+            r = _ask(dis, d.replica_agents, op[2])
+            env.prove("discovery.unregister_replica.local-view-updated", r == _UNK or x not in r, detail=lambda: r)
+        elif name == "join":
+            env.prove("discovery.start.local-view-updated", _ask(dis, d.agent_address, x) == "addr_" + x)
+        elif name == "leave":
+            env.prove("discovery.unregister_agent.local-view-updated", _ask(dis, d.agent_address, x) == _UNK)
+
+    # ---------------- the statement, once every message is delivered
+    def check_converged(self):
+        w, env = self.w, self.w.env
+        dis = w.dis
+        directory = w.directory
+        for (x, kind, item), s in sorted(w.subs.items()):
+            if not s["active"] or x not in w.alive:
+                continue
+            d = w.disc[x]
+            tag = w.region("view", x, kind, item)
+            if kind == "agent":
+                mine, ref = _ask(dis, d.agent_address, item), _ask(dis, directory.agent_address, item)
+            elif kind == "computation":
+                mine, ref = _ask(dis, d.computation_agent, item), _ask(dis, directory.computation_agent, item)
+            else:
+                cs = w.subs.get((x, "computation", item))
+                if not (cs and cs["active"]):
+                    continue        # replica_agents() only answers for a computation the agent follows
+                mine, ref = _ask(dis, d.replica_agents, item), _ask(dis, directory.discovery.replica_agents, item)
+            env.cover("converged-" + kind)
+            env.prove("discovery.converged.%s-view-of-a-subscriber-equals-the-directory%s" % (kind, tag), mine == ref,
+                      detail=lambda: dict(agent=x, item=(kind, item), local_view=mine, directory=ref, trace=w.trace))
+
+
+def _discovery_history(env, dis):
+    p = env.params
+    w = _DWorld(env, dis, p["agents"], late=p.get("late", ()))
+    ops = _DOps(w, p)
+    sched = p.get("sched", "sync")
+    for op in p.get("init", ()):
+        ops.apply(tuple(op))
+        w.run("fifo")
+    for step in range(p["n_ops"]):
+        if w.raised is not None:
+            break
+        opts = ops.options()
+        if not opts:
+            break
+        op = env.op_choice(step, opts)
+        ops.apply(op)
+        if w.raised is not None:
+            break
+        if sched == "sync":
+            w.run("fifo")
+        elif sched == "explore":
+            while w.raised is None:
+                en = w.enabled()
+                if not en:
+                    break
+                k = env.choice("sched", [None] + en)
+                if k is None:
+                    break
+                w.deliver(k)
+    if w.raised is None:
+        if sched == "explore":
+            w.run("explore", chooser=env.choice)
+        else:
+            w.run("lifo" if sched == "end-lifo" else "fifo")
+    if w.raised is not None:
+        what, r = w.raised
+        env.prove("discovery.no-exception-in-an-operation-or-a-message-handler", False,
+                  detail=lambda: "%s\n%s\ntrace=%r" % (what, r.tb, w.trace))
+        return
+    env.cover("drained")
+    env.prove("discovery.every-message-delivered", w.pending() == 0)
+    ops.check_converged()
+
+
+def h_discovery(env):
+    p = env.params
+    dis = env.call(importlib.import_module, "pydcop.infrastructure.discovery")
+    if isinstance(dis, Raised):
+        env.prove("discovery.module-imports", False, detail=lambda: dis.tb)
+        return
+    hist = _Hist(env, True, p.get("env_levels", 0))
+    hist.keep_going = True
+    for e in hist.runs():
+        _discovery_history(e, dis)
